@@ -19,6 +19,7 @@ pub mod c16;
 pub mod c17;
 pub mod c18;
 pub mod c19;
+pub mod c20;
 
 pub fn run(id: &str, tier: Tier) -> Option<Report> {
     Some(match id {
@@ -41,6 +42,7 @@ pub fn run(id: &str, tier: Tier) -> Option<Report> {
         "C17" => c17::run(tier),
         "C18" => c18::run(tier),
         "C19" => c19::run(tier),
+        "C20" => c20::run(tier),
         _ => return None,
     })
 }
